@@ -399,15 +399,14 @@ def getRaw (w : World) (p : RPath) : Act α (Val α) :=
   (getPrim w p .memoryLow).bindInt fun lo =>
   Act.pure (.ok (.int (rawProtection cur mn lo)))
 
-/-- the loop `protection_sum += rawProtection(sibling_ctx).value_or(0)` over the children of the
-parent that can be opened now (`addToCacheAndGet(set)`: `resolveWildcard` + `addToCacheAndGet`) -/
+/-- the loop `protection_sum += rawProtection(sibling_ctx).value_or(0)` over the children of the parent, each looked up by its
+name (`addToCacheAndGet(parent.getChild(name))`: the cached context of that path, else the directory is opened now; a name is
+not a pattern - repair a-sibling-name-is-not-a-pattern, see known_findings.txt) -/
 def sumRaw (w : World) (pp : RPath) : List Str → Act α Int
   | [] => Act.pure (.ok 0)
   | nm :: rest =>
-    ((match w.openDir (nm :: pp) with   -- `resolveWildcard`: the path must name a directory now
-      | none => Act.pure .unavailable
-      | some _ => (addToCache w (nm :: pp)).bind fun _ =>
-          (getRaw w (nm :: pp)).bindInt fun r => Act.pure (.ok r)).getD 0).bind
+    (((addToCache w (nm :: pp)).bind fun _ =>
+        (getRaw w (nm :: pp)).bindInt fun r => Act.pure (.ok r)).getD 0).bind
       fun r => (sumRaw w pp rest).bind fun sum => Act.pure (.ok (r + sum))
 
 /-- `effective_swap_max` = `PROXY(getEffectiveSwapMax)` -/
